@@ -249,3 +249,11 @@ def run(ctx):
     rule_no_memo(ctx)
     rule_per_validator_resolver(ctx)
     rule_registry_read_only(ctx)
+    # R18.6: the public helpers around a validator (validate(), validator_for, best_match, ...) write no module-level state either:
+    # a registry entry added while serving one caller changes which class the next caller's schema selects
+    from .c16 import rule_api_writes_no_shared_state
+    rule_api_writes_no_shared_state(ctx, "R18.6")
+    # R18.7: "the same base URI and identical reference strings that designate different definitions": each resolver files its own
+    # document last, over the registry and over a caller-supplied store, so a reference into its base URI reaches its own document
+    from .c15 import rule_seeding
+    rule_seeding(ctx, "R18.7")
